@@ -479,7 +479,8 @@ impl<T> StagingShapshot<T> {
     #[must_use]
     pub fn into_iter_snapshot(self) -> StagingShapshotIntoIter<T> {
         StagingShapshotIntoIter {
-            added: self.added.into_iter(),
+            added: self.added,
+            added_iter: None,
             removed: self.removed,
         }
     }
@@ -490,8 +491,22 @@ impl<T> StagingShapshot<T> {
 /// Filters out elements that were subsequently removed from the staging area.
 #[derive(Debug)]
 pub struct StagingShapshotIntoIter<T> {
-    added: std::collections::hash_set::IntoIter<T>,
+    /// staged additions that have not been yielded yet; a member that the
+    /// store yields is taken out, so that it is not yielded a second time
+    added: HashSet<T, FxBuildHasher>,
+    added_iter: Option<std::collections::hash_set::IntoIter<T>>,
     removed: HashSet<T, FxBuildHasher>,
+}
+
+impl<T> StagingShapshotIntoIter<T> {
+    /// The next staged addition that no store source has yielded.
+    fn next_added(&mut self) -> Option<T> {
+        let added = &mut self.added;
+
+        self.added_iter
+            .get_or_insert_with(|| std::mem::take(added).into_iter())
+            .next()
+    }
 }
 
 impl<
@@ -649,6 +664,7 @@ impl<
                 // First drain from half_constructed
                 for item in spilled.half_constructed.by_ref() {
                     if snapshot.removed.contains(&item).not() {
+                        snapshot.added.remove(&item);
                         return Some(item);
                     }
                 }
@@ -656,12 +672,13 @@ impl<
                 // Then drain from rest_iterator
                 for item in spilled.rest_iterator.by_ref() {
                     if snapshot.removed.remove(&item).not() {
+                        snapshot.added.remove(&item);
                         return Some(item);
                     }
                 }
 
                 // Finally drain from snapshot.added
-                snapshot.added.next()
+                snapshot.next_added()
             }
 
             Self::OwnedIterator(iter) => iter.next(),
@@ -670,12 +687,13 @@ impl<
                 // First drain from db_iter
                 for item in db_iter.by_ref() {
                     if snapshot.removed.remove(&item).not() {
+                        snapshot.added.remove(&item);
                         return Some(item);
                     }
                 }
 
                 // Finally drain from snapshot.added
-                snapshot.added.next()
+                snapshot.next_added()
             }
         }
     }
